@@ -21,7 +21,7 @@ Theorem C16_no_outbound_unless_authorised : forall repl upper c srv e inp evs fi
   serve srv e inp = (evs, fin) -> evs = pre ++ ev :: post -> outbound ev = true ->
   (credentials c <> [] -> exists u p, In (AuthOK u p) pre /\ configured_cred repl c u p) /\
   (forall ip port, ev = Dial ip port -> cmd_enabled repl upper c 1) /\
-  (ev = ListenUDP -> cmd_enabled repl upper c 3).
+  (forall ip port, ev = ListenUDP ip port -> cmd_enabled repl upper c 3).
 Proof. exact no_outbound_unless_authorised. Qed.
 
 (* the same for DNS lookups (they precede the rule check in the library) *)
@@ -42,10 +42,27 @@ Theorem C16_relay_needs_outbound : forall srv e inp evs fin,
   serve srv e inp = (evs, fin) ->
   match fin with
   | EProxy _ => exists ip port, In (Dial ip port) evs
-  | EAssoc => In ListenUDP evs
+  | EAssoc => exists ip port, In (ListenUDP ip port) evs
   | _ => True
   end.
 Proof. exact relay_needs_outbound. Qed.
+
+(* every path of the request phase: nothing written and the connection closed (truncated message
+   or wrong version), or a failure reply last and nothing relayed, or a success reply last *)
+Theorem C16_request_ends_with_reply_or_close : forall srv e inp evs fin,
+  request srv e inp = (evs, fin) ->
+  (evs = [] /\ fin = EErr) \/
+  (exists pre c, evs = pre ++ [Out (reply_fail c)] /\ (fin = EErr \/ fin = EDone)) \/
+  (exists pre v6, evs = pre ++ [Out (reply_ok v6)] /\ ((exists r, fin = EProxy r) \/ fin = EAssoc)).
+Proof. exact request_ends. Qed.
+
+(* a complete IPv4 request for a command the rule set does not allow gets exactly one failure
+   reply (02 not allowed / 07 command not supported) and nothing else happens *)
+Theorem C16_disallowed_is_answered : forall srv e ver cmdb rsv a p1 p2 rest evs fin,
+  zb ver = 5%Z -> allow (srule srv) (zb cmdb) = false ->
+  request srv e (ver :: cmdb :: rsv :: x01 :: a ++ [p1; p2] ++ rest) = (evs, fin) -> List.length a = 4%nat ->
+  exists c, evs = [Out (reply_fail c)] /\ fin = EErr /\ (c = x02 \/ c = x07).
+Proof. exact disallowed_is_answered. Qed.
 
 (* configuring any credential entry - even one whose name expands to nothing and is dropped -
    switches "no authentication" off for good: the method reply 05 00 is never sent *)
@@ -60,7 +77,7 @@ Definition ex_cfg : config :=
   {| commands := [unhex "636f6e6e656374"];
      credentials := [(unhex "616c696365", unhex "7b656e762e50577d"); (unhex "", unhex "78")] |}.
 Definition ex_env : env :=
-  {| resolve := fun _ => None; dial := fun _ _ => DialOK false; listen_udp := Some true |}.
+  {| resolve := fun _ => None; dial := fun _ _ => DialOK false; listen_udp := Some true; client_ip := Some (unhex "7f000001") |}.
 (* 05 01 02 | 01 05 alice 06 s3cret | 05 01 00 01 7f000001 1f90 | "hi" *)
 Definition ex_valid : bytes := unhex "0501020105616c6963650673336372657405010001" ++ unhex "7f0000011f906869".
 (* same with password "s3cres" *)
@@ -83,9 +100,56 @@ Example C16_nonvacuous :
     serve srv ex_env ex_noauth = ([Out [x05; xff]], EErr).
 Proof. eexists. split; [vm_compute; reflexivity|]. vm_compute. repeat split. Qed.
 
+(* ---- the UDP relay after a successful UDP ASSOCIATE.  RFC 1928 section 7: the relay MUST drop
+   datagrams from any source IP other than the one recorded for the association.  The library
+   compares the source with the address the client announced and accepts every source when that
+   is 0.0.0.0:0 (what clients normally send); the handler's associateSourceRewriter (added by a
+   fix: commit found by this check) pins such associations to the client's own IP.  Whenever the
+   client's IP is known, a forwarded datagram comes from the one IP the association is pinned to. *)
+Theorem C16_udp_relay_source_pinned : forall srv e inp evs fin cip dip dport sip sport,
+  client_ip e = Some cip -> cip <> [] -> ip_unspecified cip = false ->
+  serve srv e inp = (evs, fin) -> In (ListenUDP dip dport) evs ->
+  relay_accepts dip dport sip sport = true ->
+  ip_unspecified dip = false /\ ip_equal dip sip = true.
+Proof. exact udp_relay_source_pinned. Qed.
+
+(* non-vacuity: an authenticated client at 127.0.0.1 announcing 0.0.0.0:0 gets a relay pinned to
+   127.0.0.1; a datagram from 192.0.2.2:5353 is not accepted, one from 127.0.0.1:40001 is *)
+Definition ex_cfg_assoc : config :=
+  {| commands := [unhex "636f6e6e656374"; unhex "6173736f6369617465"]; credentials := credentials ex_cfg |}.
+Definition ex_assoc_any : bytes := unhex "0501020105616c6963650673336372657405030001" ++ unhex "000000000000".
+Example C16_udp_relay_pinned_example :
+  exists srv evs,
+    provision (replace_all ex_get) ascii_upper ex_cfg_assoc = Some srv /\
+    serve srv ex_env ex_assoc_any = (evs, EAssoc) /\
+    In (ListenUDP (unhex "7f000001") 0%Z) evs /\
+    relay_accepts (unhex "7f000001") 0%Z (unhex "c0000202") 5353%Z = false /\
+    relay_accepts (unhex "7f000001") 0%Z (unhex "7f000001") 40001%Z = true /\
+    relay_accepts (unhex "00000000") 0%Z (unhex "c0000202") 5353%Z = true.
+Proof. eexists. eexists. split; [vm_compute; reflexivity|]. split; [vm_compute; reflexivity|]. vm_compute. auto 10. Qed.
+
+(* observation (not counted as a violation: the property speaks of connections and listeners): the
+   library resolves a domain name before it consults the rule set, so an authenticated client can
+   make the server look up names with a command that is not enabled; here UDP ASSOCIATE (disabled)
+   for "a.b": the lookup happens, then the request is refused with 02 *)
+Definition ex_env_dns : env :=
+  {| resolve := fun _ => Some (unhex "7f000001"); dial := fun _ _ => DialOK false; listen_udp := Some true; client_ip := Some (unhex "7f000001") |}.
+Definition ex_assoc_name : bytes := unhex "0501020105616c6963650673336372657405030003" ++ unhex "03612e621f90".
+Example C16_resolve_precedes_rule_check :
+  exists srv, provision (replace_all ex_get) ascii_upper ex_cfg = Some srv /\
+    serve srv ex_env_dns ex_assoc_name =
+      ([Out [x05; x02]; AuthOK (unhex "616c696365") (unhex "733363726574"); Out [x01; x00];
+        Resolve (unhex "612e62"); Out (reply_fail x02)], EErr).
+Proof. eexists. split; [vm_compute; reflexivity|]. vm_compute. reflexivity. Qed.
+
 Print Assumptions C16_no_outbound_unless_authorised.
+Print Assumptions C16_resolve_precedes_rule_check.
+Print Assumptions C16_udp_relay_source_pinned.
+Print Assumptions C16_udp_relay_pinned_example.
 Print Assumptions C16_resolve_only_after_auth.
 Print Assumptions C16_refused_has_no_outbound.
 Print Assumptions C16_relay_needs_outbound.
+Print Assumptions C16_request_ends_with_reply_or_close.
+Print Assumptions C16_disallowed_is_answered.
 Print Assumptions C16_no_noauth_when_credentials.
 Print Assumptions C16_nonvacuous.
